@@ -771,7 +771,12 @@ impl Driver {
                         break;
                     }
                 }
-                Action::Restart(found?)
+                let v = found?;
+                if self.rng.chance(1, 5) {
+                    Action::RestartUnder(v, 1 + self.rng.below(4))
+                } else {
+                    Action::Restart(v)
+                }
             }
             K_PARTITION => {
                 let mut mask = 0u64;
